@@ -618,6 +618,12 @@ func (x *Exec) evalCall(e *Expr, env *Env) Val {
 	case "int":
 		a := args()[0]
 		return specInt(a.T)
+	case "f32frombits":
+		a := args()[0]
+		return Val{K: KFP, T: sx("f32", a.T), Typ: types.Typ[types.Float32]}
+	case "f64frombits":
+		a := args()[0]
+		return Val{K: KFP, T: sx("f64", a.T)}
 	case "min":
 		as := args()
 		return specInt(ite(sx("<=", as[0].T, as[1].T), as[0].T, as[1].T))
